@@ -207,7 +207,7 @@ pub fn gumbel_pflip(weights: &[f64], rng: &mut impl Rng) -> usize {
     assert!(!weights.is_empty(), "Empty container");
     weights
         .iter()
-        .map(|w| (w, rng.gen::<f64>().ln()))
+        .map(|w| (w, rng.sample::<f64, _>(Open01).ln()))
         .enumerate()
         .max_by(|(_, (w1, l1)), (_, (w2, l2))| {
             (*w2 * l1).partial_cmp(&(*w1 * l2)).unwrap()
